@@ -594,6 +594,24 @@ def bounded_(tier, seed):
                 if peak > mlimit or out == 'MemoryError':
                     return n, 'unmarshal(%r, %d bytes): %s with a peak of %d bytes allocated (budget %d): data unrelated in size to the input' % (
                         sg, len(d), out, peak, mlimit), {'signature': sg, 'data': d.hex(), 'little_endian': le}
+    # 1c. whole messages whose HEADER claims more than came: a UNIX_FDS count far beyond the descriptors received (none), on every
+    # message type, whole and cut short - what is built while parsing stays proportional to the bytes
+    from .message_harness import ref_message
+    for claim in (3, 70000, 4 * 10 ** 6, 2 ** 24, 2 ** 32 - 1):
+        for mtype, fields in ((1, [(1, '/o'), (3, 'M'), (8, 'su'), (9, claim)]), (4, [(9, claim), (1, '/o'), (2, 'a.b'), (3, 'S'), (8, 'su')]),
+                              (2, [(5, 7), (9, claim), (8, 'su')]), (3, [(4, 'a.b.E'), (5, 7), (8, 'su'), (9, claim)])):
+            for le in (True, False):
+                whole = ref_message(mtype, 0, 9, fields, 'su', ['x', 1], le)
+                for data in (whole, whole[:-1]):
+                    n += 1
+                    mlimit = memory_budget_for(len(data), 255)
+                    peak, out = peak_memory_of(lambda: message.parseMessage(data, []))
+                    if peak > mlimit or out == 'MemoryError':
+                        return n, 'parseMessage(%d bytes, header claiming %d descriptors, none received): %s with a peak of %d bytes allocated (budget %d): data unrelated in size to the input' % (
+                            len(data), claim, out, peak, mlimit), {'raw': data.hex()}
+                    st, out = steps_of(lambda: message.parseMessage(data, []), budget_for(len(data), 255))
+                    if out in ('BUDGET', 'MemoryError'):
+                        return fail('parseMessage(%d bytes, header claiming %d descriptors)' % (len(data), claim), {'raw': data.hex()}, st, out, budget_for(len(data), 255))
     # 2. signature splitter alone, every string over a hostile alphabet up to a length
     import itertools
     L = 7 if tier == 'thorough' else 6
